@@ -4,11 +4,14 @@
 #include <jsoncons_ext/csv/csv.hpp>
 #include <iostream>
 using namespace jsoncons;
-struct pcase { const char* id; const char* text; bool header; csv::csv_mapping_kind kind; int header_lines; bool ignore_empty; };
+struct pcase { const char* id; const char* text; bool header; csv::csv_mapping_kind kind; int header_lines; bool ignore_empty; const char* column_types; bool empty_is_null; };
 static const pcase cases[] = {
     {"header_lines2_leading_empty_line", "\nh\nc\n", true, csv::csv_mapping_kind::n_rows, 2, false}, {"header_lines2_leading_empty_line_eof", "\nh", true, csv::csv_mapping_kind::n_rows, 2, false},
     {"header_lines2_plain", "a\nb\nc\n", true, csv::csv_mapping_kind::n_rows, 2, false}, {"header_lines0_leading_empty_line", "\nh", true, csv::csv_mapping_kind::n_rows, 0, false},
     {"header_lines3_n_rows", "h\nc\nd\ne\n", true, csv::csv_mapping_kind::n_rows, 3, false}, {"header_lines3_n_objects", "h\nc\nd\ne\n", true, csv::csv_mapping_kind::n_objects, 3, false}, {"header_lines3_n_rows_no_header", "h\nc\nd\ne\n", false, csv::csv_mapping_kind::n_rows, 3, false},
+    {"typed_group_repeat_empty_is_null", "1,x,,3\n", false, csv::csv_mapping_kind::n_rows, 0, false, "integer,string,[float]*", true}, {"typed_group_repeat_empty_is_null_objects", "a,b,c,d\n1,x,,3\n", true, csv::csv_mapping_kind::n_objects, 0, false, "integer,string,[float]*", true},
+    {"typed_group_repeat_empty_kept", "1,x,,3\n", false, csv::csv_mapping_kind::n_rows, 0, false, "integer,string,[float]*", false}, {"typed_group_repeat_no_empty_is_null", "1,x,2,3\n", false, csv::csv_mapping_kind::n_rows, 0, false, "integer,string,[float]*", true},
+    {"repeat_plain_float", "a,b\n1,2\n", true, csv::csv_mapping_kind::n_rows, 0, false, "float*", false},
     {"nameless_objects_quote_after_text_at_eof_ignore_empty", "a,b\n1x\"\"", false, csv::csv_mapping_kind::n_objects, 0, true}, {"nameless_objects_quote_after_text_at_eof", "a,b\n1x\"\"", false, csv::csv_mapping_kind::n_objects, 0, false},
     {"nameless_objects_plain", "a,b\n1,2\n", false, csv::csv_mapping_kind::n_objects, 0, true}, {"named_objects_quote_after_text_at_eof_ignore_empty", "a,b\n1x\"\"", true, csv::csv_mapping_kind::n_objects, 0, true},
 };
@@ -16,7 +19,7 @@ int main(int argc, char** argv)
 {
     for (const pcase& c : cases) {
         if (argc > 1 && std::string(argv[1]) != c.id) continue;
-        std::string what; auto o = csv::csv_options{}.assume_header(c.header).mapping_kind(c.kind).ignore_empty_values(c.ignore_empty); if (c.header_lines) o.header_lines(c.header_lines);
+        std::string what; auto o = csv::csv_options{}.assume_header(c.header).mapping_kind(c.kind).ignore_empty_values(c.ignore_empty); if (c.header_lines) o.header_lines(c.header_lines); if (c.column_types) o.column_types(c.column_types); if (c.empty_is_null) o.unquoted_empty_value_is_null(true);
         try { json j = csv::decode_csv<json>(std::string(c.text), o); (void)j; }
         catch (const jsoncons::json_exception&) {}
         catch (const std::exception& e) { what = std::string("foreign exception: ") + e.what(); }
